@@ -50,6 +50,10 @@ DecStimuli(d, id) ==
      \cup {DecStim(b, <<"prefix">>) : b \in Prefixes(e0) \cup Prefixes(e1)}
      \cup {DecStim(b, <<"extend">>) : b \in Extensions(e0) \cup Extensions(e1)}
      \cup {DecStim(m.bytes, m.label) : m \in sem}
+     (* two faults at once: a single-fault mutant of the default value with octets appended (the laws between   *)
+     (* decode, decode_full and decode_mut must hold whatever the reason of a failure is)                      *)
+     \cup {DecStim(m.bytes \o <<0, 255>>, <<"extmut">> \o m.label)
+            : m \in SemanticMutants(d, id, base) \cup EnumMutants(d, id, base)}
      \cup {DecStim(b, <<"bitflip">>) : b \in BitFlips(e0) \cup BitFlips(e1)}
      \cup {DecStim(b, <<"fill">>) : b \in ByteFills(e0) \cup ByteFills(e1)}
 
